@@ -475,8 +475,10 @@ func (a *AndExpr) IsNullable() bool {
 }
 
 // InitialNames returns names of nodes with which an expression can begin.
+// The predicate consumes nothing, but its expression is evaluated at the
+// current position, so a rule invoked first inside it is invoked first here.
 func (a *AndExpr) InitialNames() map[string]struct{} {
-	return make(map[string]struct{})
+	return a.Expr.InitialNames()
 }
 
 // NotExpr is a zero-length matcher that is considered a match if the
@@ -512,8 +514,10 @@ func (n *NotExpr) IsNullable() bool {
 }
 
 // InitialNames returns names of nodes with which an expression can begin.
+// The predicate consumes nothing, but its expression is evaluated at the
+// current position, so a rule invoked first inside it is invoked first here.
 func (n *NotExpr) InitialNames() map[string]struct{} {
-	return make(map[string]struct{})
+	return n.Expr.InitialNames()
 }
 
 // ZeroOrOneExpr is an expression that can be matched zero or one time.
